@@ -5,12 +5,12 @@ package main
 // fidelity facts of the grammar), and the grammar parts of C10.
 
 import (
-	"os"
-	"golang.org/x/tools/go/ssa"
 	"fmt"
 	"go/ast"
 	"go/token"
 	"go/types"
+	"golang.org/x/tools/go/ssa"
+	"os"
 	"sort"
 	"strings"
 
@@ -94,7 +94,7 @@ func init() {
 		checkSelectorString(r, prog, "c19") // a bare value's text is Selector.String(): dotted join of the parts
 		r.importing = "C15"
 		checkEngineInvariants(r, prog, "c15") // a literal containing U+FFFD is valid; a long chain parses like a short one
-		checkPegCombinators(r, prog, "c15")    // precedence and grouping are what the table says only if the engine reads it as PEG
+		checkPegCombinators(r, prog, "c15")   // precedence and grouping are what the table says only if the engine reads it as PEG
 		r.importing = "C07"
 		checkSelectorGrammar(r, ga, "c07") // a selector's parts are the text that was written (no numeric or case normalisation)
 		if a16 := FindAnchors(prog); len(a16.Missing) == 0 {
